@@ -11,7 +11,7 @@
    6. literals                 Lexer.money_body and every spelling over the currency table
    7. examples                 non-vacuity at binary64 *)
 From Coq Require Import QArith Qcanon Floats.
-From SC.Model Require Import Base Num NumF64 NumQ Types Config Case Chrono Parser RuleFns Items Lexer Api Run64 Corr.
+From SC.Model Require Import Base Num NumF64 NumQ Types Config Case Chrono Parser RuleFns Items UiTokens Rx Rules Lexer Api Run64 Corr.
 From SC.Spec Require Import Money.
 From SC.Gen Require Import RustConsts ConfigData.
 
@@ -720,3 +720,219 @@ Proof.
   change (read_currency cfg name = Some B).
   apply reachable_rated_found; [fold cfg; congruence|exact Hn].
 Qed.
+
+(* ------------------------------------------------------------------------------------- *)
+(* 6. literals: Lexer.money_body, and every spelling over the currency table, end to end  *)
+(* ------------------------------------------------------------------------------------- *)
+Section Lit.
+Context {G : Type} {NG : Num G}.
+
+Theorem money_body_token : forall (cfg : config G) line c cp st psp price0 csp code b e0,
+  cap_name c cp "PRICE" = Some psp ->
+  read_decimal cfg (slice line psp) = Some price0 ->
+  cap_name c cp "CURRENCY" = Some csp ->
+  read_currency cfg (slice line csp) = Some code ->
+  cap_get cp 0 = Some (b, e0) ->
+  let notation := cap_name c cp "NOTATION" in
+  let price := match notation with
+               | Some nsp => fmul price0 (notation_mult NOTATION_MONEY (slice line nsp))
+               | None => price0 end in
+  let e := match notation with Some nsp => snd nsp | None => snd csp end in
+  exists st', money_body cfg line c cp st = Ok st' /\
+    (collides (ts_infos st) b e = false ->
+       ts_infos st' = ts_infos st ++ [{| ti_start := b; ti_end := e; ti_ty := Some (TMoney price code);
+                                         ti_text := slice line psp; ti_active := true |}]) /\
+    (collides (ts_infos st) b e = true -> st' = st).
+Proof.
+  intros cfg line c cp st psp price0 csp code b e0 Hp Hd Hc Hr H0 notation price e.
+  unfold money_body. rewrite Hp. cbn [need bind]. rewrite Hd, Hc, Hr, H0.
+  fold notation. fold price. fold e. unfold add_token.
+  destruct (collides (ts_infos st) b e) eqn:E.
+  - exists st. split; [reflexivity|]. split; [discriminate|reflexivity].
+  - eexists. split; [reflexivity|]. split; [|discriminate]. intros _. reflexivity.
+Qed.
+
+Theorem money_body_declines : forall (cfg : config G) line c cp st psp,
+  cap_name c cp "PRICE" = Some psp ->
+  (read_decimal cfg (slice line psp) = None \/
+   cap_name c cp "CURRENCY" = None \/
+   (exists csp, cap_name c cp "CURRENCY" = Some csp /\ read_currency cfg (slice line csp) = None)) ->
+  money_body cfg line c cp st = Ok st.
+Proof.
+  intros cfg line c cp st psp Hp H. unfold money_body. rewrite Hp. cbn [need bind].
+  destruct (read_decimal cfg (slice line psp)); [|reflexivity].
+  destruct H as [H|[H|[csp [H1 H2]]]]; [discriminate| rewrite H; reflexivity| rewrite H1, H2; reflexivity].
+Qed.
+
+Theorem money_suffixes :
+  notation_mult NOTATION_MONEY (s "k") = fofZ 1000 /\
+  notation_mult NOTATION_MONEY (s "K") = fofZ 1000 /\
+  notation_mult NOTATION_MONEY (s "M") = fofZ 1000000 /\
+  notation_mult NOTATION_MONEY [] = f1.
+Proof. repeat split; reflexivity. Qed.
+End Lit.
+
+Definition obs_value (ob : mobs) : option (token F) :=
+  match ob with
+  | MRes r => match er_lines r with
+              | [Some lo] => match lo_result lo with LOk _ (AItem i) => Some (item_token i) | _ => None end
+              | _ => None end
+  | _ => None
+  end.
+Definition ev_in (cfg : config F) (text : str) : option (token F) :=
+  match exec64 CK0 cfg (s "en") text with Ok r => obs_value (MRes r) | Panic _ => None end.
+Definition ev := ev_in default_config.
+
+(* spellings of a literal: amount then code (0-2 blanks, lower or upper case, sign, decimals,
+   thousands separator) *)
+Definition plain_spellings : list ((str -> str) * F) :=
+  [ (fun c => s "25 " ++ to_lowercase c, 25%float);
+    (fun c => s "25" ++ to_lowercase c, 25%float);
+    (fun c => s "25  " ++ c, 25%float);
+    (fun c => s "25" ++ c, 25%float);
+    (fun c => s "-25 " ++ to_lowercase c, (-25)%float);
+    (fun c => s "12,5 " ++ to_lowercase c, 12.5%float);
+    (fun c => s "1.250,75 " ++ c, 1250.75%float) ].
+(* with a suffix: the money token ends at the suffix and the code that follows it triggers the
+   conversion rule into the same currency, so a rated currency goes through (x / r) * r *)
+Definition suffix_spellings : list ((str -> str) * F) :=
+  [ (fun c => s "25k " ++ to_lowercase c, 25000%float);
+    (fun c => s "25K  " ++ c, 25000%float);
+    (fun c => s "25M " ++ to_lowercase c, 25000000%float) ].
+Definition through_rate (cfg : config F) (code : str) (x : F) : F :=
+  match rate_of cfg code with Some r => fmul (do_division x r) r | None => x end.
+
+Definition spelled (text : str) (x : F) (code : str) : bool :=
+  opt_token_exact (ev text) (Some (TMoney x code)).
+Definition plain_ok (code : str) : bool :=
+  forallb (fun sp => spelled (fst sp code) (snd sp) code) plain_spellings.
+Definition suffix_ok (code : str) : bool :=
+  assoc_mem code (cf_timezones default_config) ||
+  forallb (fun sp => spelled (fst sp code) (through_rate default_config code (snd sp)) code) suffix_spellings.
+
+Lemma plain_checked : forallb plain_ok (table_codes default_config) = true.
+Proof. vm_cast_no_check (eq_refl true). Qed.
+Lemma suffix_checked : forallb suffix_ok (table_codes default_config) = true.
+Proof. vm_cast_no_check (eq_refl true). Qed.
+
+Theorem literal_spellings : forall code mk x,
+  In code (table_codes default_config) -> In (mk, x) plain_spellings ->
+  opt_token_exact (ev (mk code)) (Some (TMoney x code)) = true.
+Proof.
+  intros code mk x Hc Hs.
+  pose proof (proj1 (forallb_forall _ _) plain_checked code Hc) as H.
+  exact (proj1 (forallb_forall _ _) H (mk, x) Hs).
+Qed.
+
+Theorem literal_suffix_spellings : forall code mk x,
+  In code (table_codes default_config) -> assoc_mem code (cf_timezones default_config) = false ->
+  In (mk, x) suffix_spellings ->
+  opt_token_exact (ev (mk code)) (Some (TMoney (through_rate default_config code x) code)) = true.
+Proof.
+  intros code mk x Hc Htz Hs.
+  pose proof (proj1 (forallb_forall _ _) suffix_checked code Hc) as H.
+  unfold suffix_ok in H. rewrite Htz in H. cbn [orb] in H.
+  exact (proj1 (forallb_forall _ _) H (mk, x) Hs).
+Qed.
+
+(* aliases and symbols: every alias made of ASCII letters after the amount, every one-character
+   alias (a currency symbol) before and after the amount *)
+Definition is_word (a : str) : bool :=
+  (2 <=? length a)%nat && forallb (fun c => ((65 <=? c) && (c <=? 90) || (97 <=? c) && (c <=? 122))%N) a.
+Definition alias_literal_ok (kv : str * str) : bool :=
+  match read_currency default_config (fst kv) with
+  | None => false
+  | Some code =>
+    let al := fst kv in
+    if is_word al then
+      spelled (s "25 " ++ al) 25%float code && spelled (s "25" ++ to_uppercase al) 25%float code
+      && spelled (s "3k " ++ al) (through_rate default_config code 3000%float) code
+    else if (length al =? 1)%nat then
+      spelled (al ++ s "25") 25%float code && spelled (s "25" ++ al) 25%float code
+      && spelled (s "25 " ++ al) 25%float code && spelled (al ++ s "3k") 3000%float code
+      && spelled (s "3M " ++ al) 3000000%float code && spelled (al ++ s "1.250,5") 1250.5%float code
+    else true
+  end.
+Lemma alias_literals_checked : forallb alias_literal_ok (cf_currency_alias default_config) = true.
+Proof. vm_cast_no_check (eq_refl true). Qed.
+
+Theorem alias_literals : forall kv, In kv (cf_currency_alias default_config) -> alias_literal_ok kv = true.
+Proof. intros kv H. exact (proj1 (forallb_forall _ _) alias_literals_checked kv H). Qed.
+
+(* end to end, all ordered pairs of rated currencies x every conversion word of English *)
+Definition conversion_words : list str :=
+  match assoc (s "en") (cf_word_group default_config) with
+  | Some gs => match assoc (s "conversion_group") gs with Some ws => ws | None => [] end
+  | None => []
+  end.
+Definition rated_codes : list str := map fst (cf_rates default_config).
+Definition pair_ok (w A B : str) : bool :=
+  match rate_of default_config A, rate_of default_config B with
+  | Some rA, Some rB =>
+    opt_token_exact (ev (s "100 " ++ to_lowercase A ++ s " " ++ w ++ s " " ++ to_lowercase B))
+                    (Some (TMoney (fmul (do_division 100%float rA) rB) B))
+  | _, _ => false
+  end.
+Lemma pairs_checked :
+  forallb (fun w => forallb (fun A => forallb (fun B => pair_ok w A B) rated_codes) rated_codes) conversion_words = true.
+Proof. vm_cast_no_check (eq_refl true). Qed.
+
+Theorem all_pairs_executed : forall w A B,
+  In w conversion_words -> In A rated_codes -> In B rated_codes -> pair_ok w A B = true.
+Proof.
+  intros w A B Hw HA HB.
+  pose proof (proj1 (forallb_forall _ _) pairs_checked w Hw) as H1.
+  pose proof (proj1 (forallb_forall _ _) H1 A HA) as H2.
+  exact (proj1 (forallb_forall _ _) H2 B HB).
+Qed.
+
+Theorem pairs_nonvacuous : (1 <=? length conversion_words)%nat && (2 <=? length rated_codes)%nat = true.
+Proof. vm_cast_no_check (eq_refl true). Qed.
+
+(* ------------------------------------------------------------------------------------- *)
+(* 7. examples (non-vacuity) and the limits of the literal clause                         *)
+(* ------------------------------------------------------------------------------------- *)
+Definition brief (ob : mobs) : option (token F) + option bool :=
+  match ob with MRet b => inr b | _ => inl (obs_value ob) end.
+
+Definition example_history : list op :=
+  [ OUpdateCurrency (s "try") 8%float; OUpdateCurrency (s "USD") 2%float; OUpdateCurrency (s "bitcoin") 5%float;
+    OExec (s "en") (s "10 usd to try");
+    OExec (s "en") (s "$10 + 16 tl");
+    OExec (s "en") (s "10 usd - 16 tl");
+    OExec (s "en") (s "10 usd * 3");
+    OExec (s "en") (s "12 eur / 4");
+    OExec (s "en") ([8378%N] ++ s "80 / 5 dollar");
+    OExec (s "en") (s "7 eur to EUR");
+    OUpdateCurrency [8364%N] 4%float;
+    OExec (s "en") (s "1 euro in try");
+    OExecFresh (s "en") (s "10 usd to usd") ].
+
+Theorem examples :
+  map brief (run CK0 init_state example_history) =
+  [ inr (Some true); inr (Some true); inr (Some false);
+    inl (Some (TMoney 40%float (s "TRY")));
+    inl (Some (TMoney 14%float (s "USD")));
+    inl (Some (TMoney 6%float (s "USD")));
+    inl (Some (TMoney 30%float (s "USD")));
+    inl (Some (TMoney 3%float (s "EUR")));
+    inl (Some (TNumber 4%float Decimal));
+    inl (Some (TMoney 7%float (s "EUR")));
+    inr (Some true);
+    inl (Some (TMoney 2%float (s "TRY")));
+    inl (Some (TMoney 10%float (s "USD"))) ].
+Proof. vm_compute. reflexivity. Qed.
+
+(* where the crate (and so the model) does not follow the literal clause of the statement; the
+   generator keeps these inputs under the correspondence check *)
+Theorem literal_limits :
+  (* amount + suffix + blank + symbol: whatever follows is dropped *)
+  ev (s "1k $ * 2") = Some (TMoney 1000%float (s "USD")) /\
+  ev (s "1M " ++ [8364%N] ++ s " + 5cny") = Some (TMoney 1000000%float (s "EUR")) /\
+  (* a currency symbol that is not a configured alias; the alias in Cyrillic letters *)
+  ev ([163%N] ++ s "10") = Some (TNumber 0%float Decimal) /\
+  ev (s "10 " ++ [1083%N; 1074%N]) = Some (TNumber 10%float Decimal) /\
+  read_currency default_config [1083%N; 1074%N] = Some (s "BGN") /\
+  (* a currency code that is also a time-zone abbreviation, after a suffixed amount *)
+  ev (s "25k tmt") = None /\ ev (s "25 tmt") = Some (TMoney 25%float (s "TMT")).
+Proof. vm_compute. repeat split; reflexivity. Qed.
